@@ -223,17 +223,17 @@ func vLongToken(kind int, L int) string {
 		return vRun("0123456789", L)
 	case 2: // quoted string
 		q := vByteIn("'\"")
-		return vB(q) + vRun("ab \\1", L) + vB(q)
+		return vB(q) + vRun("ac", L) + vB(q)
 	case 3: // C comment
-		return "/*" + vRun("ab *1", L) + "*/"
+		return "/*" + vRun("ac", L) + "*/"
 	case 4: // dash-dash comment
-		return "-- " + vRun("ab-1 ", L)
+		return "-- " + vRun("ac", L)
 	case 5: // variable
-		return "@" + vRun("acz_1", L)
+		return "@" + vRun("ac_", L)
 	case 6: // bracket word
-		return "[" + vRun("ab 1.", L) + "]"
+		return "[" + vRun("ac", L) + "]"
 	case 7: // back-tick word
-		return "`" + vRun("acz 1", L) + "`"
+		return "`" + vRun("ac", L) + "`"
 	case 8: // hex literal
 		return "0x" + vRun("09afAF", L)
 	case 9: // money
@@ -241,13 +241,13 @@ func vLongToken(kind int, L int) string {
 	case 10: // x'..' hex string
 		return "x'" + vRun("09afAF", L) + "'"
 	case 11: // unterminated string
-		return "'" + vRun("ab \\1", L)
+		return "'" + vRun("ac", L)
 	case 12: // hash comment
-		return "#" + vRun("ab#1 ", L)
+		return "#" + vRun("ac", L)
 	case 13: // q-string
-		return "q'(" + vRun("ab)1'", L) + ")'"
+		return "q'(" + vRun("ac", L) + ")'"
 	case 14: // dollar string
-		return "$$" + vRun("ab$1", L) + "$$"
+		return "$$" + vRun("ac", L) + "$$"
 	}
 	return ""
 }
